@@ -152,7 +152,11 @@ struct Exec {
 
   static long long doOp(V& v, const OpDesc& o, E* ref, typename V::iterator* it) {
     const std::string& k = o.op;
-    auto pos = [&](typename V::iterator r) { return (long long)(r - v.begin()); };
+    // garbage positions must reach TLC as a mismatch, not abort the trace writer (32-bit ints)
+    auto pos = [&](typename V::iterator r) {
+      long long d = (long long)(r - v.begin());
+      return d > 1000000 || d < -1000000 ? -999999LL : d;
+    };
     int val = (int)o.v;
     if (k == "push") {
       E x(val);
